@@ -107,7 +107,12 @@ def run(tier, seed, replay):
         "no default under a required object",
         "arguments `null` are outside the family (the SDK treats them as absent arguments)",
         "a client cannot tell structuredContent null from absent: both are read as null",
-        "Go nil forms stand for the value Go gives them: nil map = {}, nil *T = zero T (documented), nil slice = null; "
+        "the handlers of the output family return no error of their own, so 'reported as an error rather than returned' is read "
+        "two-sided: invalid output (after defaults) => error, valid output => successful result (ValidOutputReturned), "
+        "as InvokedIffValid does on the input side",
+        "Go nil forms stand for the value Go gives them: nil map = {}, nil *T = zero T (documented; *struct and *int, in every "
+        "SchemaCache arrangement: reflected, cache hit after an earlier registration, hit through the element-type sibling, "
+        "filling the cache), nil slice = null; "
         "for struct inputs an optional member that is null is the same as an absent one",
         "integers are sent in seeded spellings (3, 3.0, 3e0, 30e-1) and member orders",
     ]
@@ -183,7 +188,7 @@ def run(tier, seed, replay):
         if s["kind"] != "goschema":
             continue
         name = ("rin." if s["dir"] == "in" else "rout.") + s["id"]
-        for cached in ("none", "warm", "xfirst"):
+        for cached in ("none", "warm", "xfirst", "pfirst"):
             a = adv.get("%s|cache=%s" % (name, cached))
             if a is None:
                 raise vlib.MachineryError("tool %s not advertised" % name)
